@@ -604,3 +604,191 @@ Proof.
     destruct (X _ _ E) as (t1 & E1 & _). pose proof (Hs _ _ E1) as E1'. rewrite E' in E1'. injection E1' as ->.
     eapply cancel_targets_raw; eauto.
 Qed.
+
+Example c07_cancel_targets_nonvacuous :
+  exists c s l s' os k t t', reach c s /\ step s l = Some (s', os) /\
+    nth_error (tasks s) k = Some t /\ nth_error (tasks s') k = Some t' /\
+    t_cancelled t = false /\ t_cancelled t' = true.
+Proof.
+  exists ex_cfg, (st_of ex_cfg (ex_tr_running ++ [LCallCancel 7 [49%N]])), (LRelCancel 7).
+  eexists _, _, 0, _, _. split; [apply reach_st_of; vm_compute; discriminate|].
+  compute. repeat split; reflexivity.
+Qed.
+
+(* the same for a delivery (its own) and for a stop *)
+Example c07_cancel_by_deliver_nonvacuous :
+  exists s s' os t t', reach ex_cfg s /\ step s (LRelDeliver 0) = Some (s', os) /\
+    nth_error (tasks s) 0 = Some t /\ nth_error (tasks s') 0 = Some t' /\
+    t_cancelled t = false /\ t_cancelled t' = true /\ t_unit t = 0.
+Proof.
+  exists (st_of ex_cfg ex_tr_atdeliver). eexists _, _, _, _.
+  split; [apply reach_st_of; vm_compute; discriminate|]. compute. repeat split; reflexivity.
+Qed.
+
+Example c07_cancel_by_stop_nonvacuous :
+  exists s s' os t t', reach ex_cfg s /\ step s (LRelStop 3) = Some (s', os) /\
+    nth_error (tasks s) 0 = Some t /\ nth_error (tasks s') 0 = Some t' /\
+    t_cancelled t = false /\ t_cancelled t' = true.
+Proof.
+  exists (st_of ex_cfg (ex_tr_running ++ [LCallStop 3])). eexists _, _, _, _.
+  split; [apply reach_st_of; vm_compute; discriminate|]. compute. repeat split; reflexivity.
+Qed.
+
+Example c07_inv_used_nonvacuous :
+  exists s, reach ex_cfg s /\ used s = [([49%N], 0)] /\ running s = true /\ crash s = None.
+Proof.
+  exists (st_of ex_cfg ex_tr_running). split; [apply reach_st_of; vm_compute; discriminate|].
+  vm_compute. repeat split; reflexivity.
+Qed.
+
+(** * C07.3: CancelRequest for an id that is not reserved does nothing *)
+Theorem c07_cancel_unknown_noop s n id :
+  find_op n (ops s) = Some (OpCancel n id) -> assoc id (used s) = None ->
+  step_raw s (LRelCancel n) = Some (s <| ops ::= del_op n |>, [ORet n AOk]).
+Proof. intros F A. unfold step_raw. rewrite F. cbn. rewrite A. reflexivity. Qed.
+
+(* at the level of a whole window: no task changes, and the call returns nil *)
+Theorem c07_cancel_unknown_noop_step s n id s' os :
+  find_op n (ops s) = Some (OpCancel n id) -> assoc id (used s) = None ->
+  step s (LRelCancel n) = Some (s', os) ->
+  (forall k t, nth_error (tasks s) k = Some t -> nth_error (tasks s') k = Some t) /\
+  exists extra, os = ORet n AOk :: extra /\ Forall settle_obs extra.
+Proof.
+  intros F A H. apply step_decompose in H as (Cr & s1 & os1 & Hr & Hs).
+  rewrite (c07_cancel_unknown_noop _ _ _ F A) in Hr. injection Hr as <- <-.
+  destruct Hs as [(_ & -> & ->)|(_ & Hs)].
+  - split; [intros k t E; exact E|]. exists []. split; auto.
+  - split.
+    + apply settle_keeps in Hs. intros k t E. apply Hs. exact E.
+    + apply settle_obs_app in Hs as (extra & -> & Fa). exists extra. split; auto.
+Qed.
+
+Example c07_cancel_unknown_noop_nonvacuous :
+  exists s n id, reach ex_cfg s /\ find_op n (ops s) = Some (OpCancel n id) /\ assoc id (used s) = None /\
+                 used s <> [].
+Proof.
+  exists (st_of ex_cfg (ex_tr_running ++ [LCallCancel 7 [50%N]])), 7, [50%N].
+  split; [apply reach_st_of; vm_compute; discriminate|]. vm_compute. repeat split; try reflexivity. discriminate.
+Qed.
+
+(** * C07.4: a duplicate id is rejected without disturbing the call that owns it *)
+Definition msg_ids (ms : list jmsg) : list bytes := map (fun m => fix_id (j_id m)) ms.
+
+Lemma pre_err_dup s ids m : fix_id (j_id m) <> [] ->
+  assoc (fix_id (j_id m)) (used s) <> None \/ 2 <= count_bytes (fix_id (j_id m)) ids ->
+  pre_err s ids m = Some err_dup.
+Proof.
+  intros Ni D. unfold pre_err. apply is_nil_false in Ni. rewrite Ni. cbn [negb andb].
+  destruct (assoc (fix_id (j_id m)) (used s)) eqn:A; cbn [orb]; auto.
+  destruct D as [D|D]; [congruence|]. apply Nat.ltb_lt in D. rewrite D. auto.
+Qed.
+
+Theorem c07_duplicate_rejected s batch ms q i m :
+  inq s = (batch, ms) :: q -> nth_error ms i = Some m ->
+  fix_id (j_id m) <> [] ->
+  assoc (fix_id (j_id m)) (used s) <> None \/ 2 <= count_bytes (fix_id (j_id m)) (msg_ids ms) ->
+  exists t, nth_error (tasks (dequeue s)) (length (tasks s) + i) = Some t /\
+    t_id t = fix_id (j_id m) /\ t_pre t = Some err_dup /\ t_hasctx t = false /\ t_st t = TSkip /\
+    assoc (fix_id (j_id m)) (used (dequeue s)) = assoc (fix_id (j_id m)) (used s) /\
+    (forall k t0, nth_error (tasks s) k = Some t0 -> nth_error (tasks (dequeue s)) k = Some t0).
+Proof.
+  intros Q Em Ni D. unfold dequeue. rewrite Q. cbn.
+  fold (msg_ids ms). set (u := length (units s)). set (ids := msg_ids ms).
+  exists (mk_task s u ids m).
+  assert (Pm : forall m', fix_id (j_id m') = fix_id (j_id m) -> pre_err s ids m' = Some err_dup).
+  { intros m' Eq. apply pre_err_dup; rewrite Eq; auto. }
+  split; [|split; [apply mk_task_id|]].
+  { rewrite nth_error_app2 by lia. replace (length (tasks s) + i - length (tasks s)) with i by lia.
+    rewrite nth_error_map, Em. reflexivity. }
+  unfold mk_task at 1 2 3. rewrite (Pm m eq_refl). cbn. repeat split; auto.
+  - apply reserve_other. intros t It Rt Eq. apply in_map_iff in It as (m' & <- & _).
+    rewrite mk_task_id in Eq. apply reserves_spec in Rt as [Hc _].
+    apply mk_task_hasctx in Hc. rewrite (Pm m' Eq) in Hc. discriminate.
+  - intros k t0 E. apply nth_error_app_old; auto.
+Qed.
+
+(* a request "1" is in flight, a second message [ "1", "1" ] is queued behind it *)
+Definition ex_tr_dup : list label :=
+  ex_tr_running ++ [LFeed (FMsg (InMsgs true [ex_call [49%N] []; ex_call [49%N] []; ex_call [50%N] []])); LRelRead].
+
+Example c07_duplicate_rejected_nonvacuous :
+  exists s batch ms q m, reach ex_cfg s /\ inq s = (batch, ms) :: q /\ nth_error ms 1 = Some m /\
+    fix_id (j_id m) <> [] /\ assoc (fix_id (j_id m)) (used s) <> None /\ 2 <= count_bytes (fix_id (j_id m)) (msg_ids ms).
+Proof.
+  (* the dispatcher is parked before nextRequest: the queue holds the second message *)
+  exists (st_of ex_cfg ([LStart; LFeed (FMsg (InMsgs false [ex_call [49%N] [91;93]%N])); LRelRead; LRelNext; LRelBarrier;
+                         LFeed (FMsg (InMsgs true [ex_call [49%N] []; ex_call [49%N] []; ex_call [50%N] []])); LRelRead])).
+  eexists _, _, _, _. split; [apply reach_st_of; vm_compute; discriminate|].
+  compute. repeat split; try reflexivity; try discriminate; lia.
+Qed.
+
+(** * C07.5: after the reply has been delivered the id can be used again *)
+Theorem c07_released_by_deliver s u s1 os t :
+  step_raw s (LRelDeliver u) = Some (s1, os) -> In t (unit_tasks s u) -> t_hasctx t = true -> t_id t <> [] ->
+  assoc (t_id t) (used s1) = None.
+Proof.
+  intros H It Hc Ni. unfold step_raw in H.
+  destruct (nth_error (units s) u) as [un|]; [|discriminate].
+  destruct (u_st un); try discriminate.
+  destruct (release_ids_spec (unit_tasks s u) s) as [_ _ _ _ _ U _].
+  assert (G : assoc (t_id t) (used (release_ids (unit_tasks s u) s)) = None).
+  { rewrite U. apply assoc_rel_used_gone; auto. apply is_nil_false; auto. }
+  destruct (u_chok un); cbn in H; injection H as <- <-; exact G.
+Qed.
+
+(* an id that is not reserved and not repeated within its message passes the duplicate check; a valid
+   request for a known method is then given a context and parked before the semaphore *)
+Theorem c07_accept_unreserved s u ids m b :
+  assoc (fix_id (j_id m)) (used s) = None -> count_bytes (fix_id (j_id m)) ids <= 1 -> j_err m = None ->
+  pre_err s ids m = None /\
+  (j_method m <> [] -> assign_method s (j_method m) = Some b ->
+   let t := mk_task s u ids m in t_pre t = None /\ t_hasctx t = true /\ t_st t = TAtAcquire).
+Proof.
+  intros A C E.
+  assert (P : pre_err s ids m = None).
+  { unfold pre_err. rewrite A, E. apply Nat.ltb_ge in C. rewrite C. cbn. rewrite andb_false_r. auto. }
+  split; auto. intros Nm Am. unfold mk_task. rewrite P. apply is_nil_false in Nm. rewrite Nm, Am. cbn. auto.
+Qed.
+
+Theorem c07_reusable_after_reply s u s1 os t ids m :
+  step_raw s (LRelDeliver u) = Some (s1, os) -> In t (unit_tasks s u) -> t_hasctx t = true -> t_id t <> [] ->
+  fix_id (j_id m) = t_id t -> count_bytes (t_id t) ids <= 1 -> j_err m = None ->
+  pre_err s1 ids m = None.
+Proof.
+  intros H It Hc Ni Eq C E.
+  apply (c07_accept_unreserved s1 0 ids m true); auto; rewrite Eq; auto.
+  eapply c07_released_by_deliver; eauto.
+Qed.
+
+Example c07_reusable_after_reply_nonvacuous :
+  exists s s1 os t, reach ex_cfg s /\ step_raw s (LRelDeliver 0) = Some (s1, os) /\ In t (unit_tasks s 0) /\
+    t_hasctx t = true /\ t_id t = [49%N] /\ assoc [49%N] (used s) = Some 0.
+Proof.
+  exists (st_of ex_cfg ex_tr_atdeliver). eexists _, _.
+  exists (mkTask 0 [49%N] ex_m [91;93]%N None true false false (TDone (Some (BRes [50%N])))).
+  split; [apply reach_st_of; vm_compute; discriminate|]. compute. repeat split; try reflexivity. left; reflexivity.
+Qed.
+
+(* end to end: the same id is used again after the reply and its handler starts *)
+Example c07_reuse_run :
+  exists s t, reach ex_cfg s /\ nth_error (tasks s) 1 = Some t /\ t_id t = [49%N] /\ t_pre t = None /\ t_st t = TRunning.
+Proof.
+  exists (st_of ex_cfg (ex_tr_delivered ++ [LFeed (FMsg (InMsgs false [ex_call [49%N] []])); LRelRead; LRelNext; LRelBarrier; LRelAcquire 1])).
+  eexists. split; [apply reach_st_of; vm_compute; discriminate|]. compute. repeat split; reflexivity.
+Qed.
+
+(* C07.2 with the causes spelled out *)
+Theorem c07_cancel_targets_explicit c s l s' os k t t' : reach c s -> step s l = Some (s', os) ->
+  nth_error (tasks s) k = Some t -> nth_error (tasks s') k = Some t' ->
+  t_cancelled t = false -> t_cancelled t' = true ->
+  (exists n id, l = LRelCancel n /\ find_op n (ops s) = Some (OpCancel n id) /\ assoc id (used s) = Some k /\ t_id t = id)
+  \/ (exists n, l = LRelStop n)
+  \/ (l = LRelRead /\ exists e, rd s = RHold (FErr e))
+  \/ l = LRelDeliver (t_unit t).
+Proof.
+  intros R H E E' C0 C1. destruct (c07_cancel_targets _ _ _ _ _ _ _ _ R H E E' C0 C1).
+  - left. exists n, id. auto.
+  - right. left. eauto.
+  - right. right. left. eauto.
+  - right. right. right. auto.
+Qed.
